@@ -525,6 +525,13 @@ Fixpoint v_sets (g : cfg) (s : state CE) (rs : list (N * bool * bool * option N 
               v_set g s x :: v_sets g (cstep g s (RibSet net bc ac repl paths)) t
   end.
 
+(* End-of-RIB markers of one drained batch, each with the number of routes announced before
+   it: the one buffered with the initial dump follows the dump, the scheduled one
+   (PendingTx.pending_eor) comes last *)
+Definition eor_positions {E} (n : nbr E) : list N :=
+  (if n_beor n then [N.of_nat (length (n_buf n))] else []) ++
+  (if n_eor n then [N.of_nat (length (n_buf n) + length (t_reach (n_ptx n)))] else []).
+
 Definition observe1 (g : cfg) (s : state CE) (l : label) : val :=
   let s' := cstep g s l in
   let n := s_nbr s in
@@ -544,7 +551,7 @@ Definition observe1 (g : cfg) (s : state CE) (l : label) : val :=
   | Flush => VL [VN 3;
                  v_rows (map row_k (drained_unreach CE (n_ptx n)));
                  v_rows (map row_kv (n_buf n ++ drained_reach CE (n_ptx n)));
-                 VN ((if n_beor n then 1 else 0) + (if n_eor n then 1 else 0));
+                 VNs (eor_positions n);
                  v_check g s']
   | Register => VL [VN 4]
   | Refresh => VL [VN 5; VB (pending_empty n')]
